@@ -14,6 +14,10 @@ import (
 	"os"
 	"path/filepath"
 
+	networking "k8s.io/api/networking/v1"
+	"k8s.io/apimachinery/pkg/util/intstr"
+	"sigs.k8s.io/controller-runtime/pkg/client"
+
 	"github.com/jcmoraisjr/haproxy-ingress/pkg/controller/reconciler"
 	"github.com/jcmoraisjr/haproxy-ingress/pkg/controller/services"
 	"github.com/jcmoraisjr/haproxy-ingress/pkg/haproxy"
@@ -158,9 +162,25 @@ func genLoop(rng *rand.Rand, wide bool) LoopInput {
 
 // loopCorpus: the interleavings the task names, on a tiny cluster.
 func loopCorpus(rng *rand.Rand) []LoopInput {
-	cfg := world.Config{MaxIngresses: 3}
-	h := world.GenHistory(rand.New(rand.NewSource(7)), cfg, 2, 1)
-	c := world.EncodeHistory(h)
+	// a service with one endpoint and an ingress; then two more hosts, one at a time: each needs a reload
+	ing := func(name, host string, stamp int) *networking.Ingress {
+		return world.Ingress("ns1", name, stamp, world.IngRule{Host: host,
+			Paths: []world.IngPath{{Path: "/", Type: "Prefix", Service: "svc1", PortNum: 80}}})
+	}
+	create := func(objs ...client.Object) []pipeline.Change {
+		var b []pipeline.Change
+		for _, o := range objs {
+			b = append(b, pipeline.Change{Op: pipeline.Create, Obj: o})
+		}
+		return b
+	}
+	c := world.EncodeHistory([][]pipeline.Change{
+		create(world.Service("ns1", "svc1", world.SvcPort{Name: "http", Port: 80, TargetPort: intstr.FromInt(8080)}),
+			world.Endpoints("ns1", "svc1", world.EpPort{Name: "http", Port: 8080, Ready: []string{"10.0.0.1"}}),
+			ing("ing1", "a.example", 10)),
+		create(ing("ing2", "b.example", 11)),
+		create(ing("ing3", "sub.a.example", 12)),
+	})
 	return []LoopInput{
 		// failure, then the scheduled retry with an empty batch
 		{Shards: 3, Cluster: c, Script: []LoopEv{{Kind: "deliver"}, {Kind: "tick"}, {Kind: "tick", Full: true}, {Kind: "attempt", Full: true}, {Kind: "attempt"},
